@@ -166,6 +166,7 @@ Record skel := mkSkel { protos : list proto; subs : list subr; cands : list cand
    a freshly built collection is never a child of one of its own kind) *)
 Definition lt_loc (a b : loc) : bool :=
   if contains a b && negb (contains b a) then true
+  else if contains b a && negb (contains a b) then false  (* mirrored shortcut: repair of finding F53 / C10-F46 *)
   else C05.Model.pair_lt (C05.Model.comparator a) (C05.Model.comparator b).
 
 (* a collection as seen by sorted(all_features): kind 0 subregion, 1 protocluster, 2 candidate,
